@@ -488,6 +488,12 @@ def _norm_method(node, ren):
     n = copy.deepcopy(node)
     if n.body and isinstance(n.body[0], ast.Expr) and isinstance(n.body[0].value, ast.Constant):
         n.body = n.body[1:] or [ast.Pass()]
+    # assertions state beliefs, they decode nothing: one sibling may carry one the other does not
+    for x in ast.walk(n):
+        for fld in ('body', 'orelse', 'finalbody'):
+            b = getattr(x, fld, None)
+            if isinstance(b, list) and any(isinstance(st, ast.Assert) for st in b):
+                setattr(x, fld, [st for st in b if not isinstance(st, ast.Assert)] or [ast.Pass()])
     for x in ast.walk(n):
         if isinstance(x, ast.Attribute) and x.attr in ren:
             x.attr = ren[x.attr]
